@@ -68,10 +68,10 @@ def export_module(
     data.append(header)
     data.append(_build_content(module, timestamp))
 
-    if compress is None and isinstance(target, str | os.PathLike):
-        compress = os.fspath(target).endswith(".reqifz")
-    else:
-        compress = False
+    if compress is None:
+        compress = isinstance(target, str | os.PathLike) and os.fspath(
+            target
+        ).endswith(".reqifz")
 
     if not isinstance(target, str | os.PathLike):
         ctx: t.ContextManager[t.IO[bytes]] = contextlib.nullcontext(target)
